@@ -293,6 +293,26 @@ def rule_e(ctx, ix):
                                 excluded = True
                             if 'notin' in t and 'subset_groups' in t and 'group' in t.split('notin')[0] and v in t.split('notin')[0]:
                                 excluded = True
+                if not excluded:
+                    # the same exclusion written as guard clauses (`if ...: continue`) or through nested / negated tests: the
+                    # condition under which the deletion runs implies it
+                    from .. import cond as _c
+                    st_ = c
+                    while st_ is not None and not isinstance(st_, ast.stmt):
+                        st_ = pm.get(id(st_))
+                    pc_ = _c.path_condition(fn, st_, expand=False) if st_ is not None else None
+                    if pc_ is not None:
+                        for a_ in sorted(_c.atoms(pc_)):
+                            if 'group' in a_.lower():
+                                mentions = True
+                            try:
+                                if a_ == 'isinstance(%s,GroupedSubset)' % v and _c.implies(pc_, _c.Not(_c.T(a_))):
+                                    excluded = True
+                                if a_.startswith('in|') and 'subset_groups' in a_.split('|')[2] and 'group' in a_.split('|')[1] and v in a_.split('|')[1] \
+                                        and _c.implies(pc_, _c.Not(_c.T(a_))):
+                                    excluded = True
+                            except ValueError:
+                                pass
                 ok = whole or paired or excluded
                 ctx.idiom(R, construct, 'the deleted subsets are ungrouped, or leave their group / the group leaves the collection as well',
                           accepted=ok, absent=not mentions or True,
